@@ -796,3 +796,44 @@ func exitPaths(fn *ssa.Function) []exitPath {
 	}
 	return out
 }
+
+// factCases splits what is known at a point into cases when a fact about a merged value (phi)
+// leaves several incoming edges possible: one fact set per edge, each extended with what holds
+// on that edge. A rule that needs "on every path that gets here, X" checks X in every case.
+func factCases(facts []Fact) [][]Fact {
+	var split func(fs []Fact, done map[*ssa.Phi]bool, depth int) [][]Fact
+	split = func(fs []Fact, done map[*ssa.Phi]bool, depth int) [][]Fact {
+		if depth < 3 {
+			for _, f := range fs {
+				phi, contradicts := phiFact(f)
+				if phi == nil || done[phi] {
+					continue
+				}
+				var feasible []int
+				for i := range phi.Edges {
+					if !contradicts(i) {
+						feasible = append(feasible, i)
+					}
+				}
+				if len(feasible) < 2 || len(feasible) > 4 {
+					continue
+				}
+				done2 := map[*ssa.Phi]bool{phi: true}
+				for k := range done {
+					done2[k] = true
+				}
+				var out [][]Fact
+				for _, i := range feasible {
+					c := append([]Fact{}, fs...)
+					for _, g := range edgeFactsOf(phi, i) {
+						c = append(c, expandFact(g)...)
+					}
+					out = append(out, split(c, done2, depth+1)...)
+				}
+				return out
+			}
+		}
+		return [][]Fact{fs}
+	}
+	return split(facts, map[*ssa.Phi]bool{}, 0)
+}
